@@ -64,9 +64,12 @@ def ref_index(data: bytes):
     return out
 
 
-def stream_bytes(fai: FastaIndex, asm, line_length=60) -> bytes:
+def stream_bytes(fai: FastaIndex, asm, line_length=60, gap_character=None) -> bytes:
     out = io.BytesIO()
-    FastaStream(out, fai, line_length=line_length).write_assembly(asm)
+    if gap_character is None:
+        FastaStream(out, fai, line_length=line_length).write_assembly(asm)
+    else:
+        FastaStream(out, fai, line_length=line_length, gap_character=gap_character).write_assembly(asm)
     return out.getvalue()
 
 
